@@ -84,7 +84,9 @@ func Load(lc LoadConfig) *Ctx {
 	if nerr > 0 {
 		undecidedf("%d load/type errors in %s", nerr, lc.Repo)
 	}
-	for _, p := range pkgs {
+	var allPkgs []*packages.Package
+	packages.Visit(pkgs, nil, func(p *packages.Package) { allPkgs = append(allPkgs, p) })
+	for _, p := range allPkgs {
 		if p.PkgPath != modPath && !strings.HasPrefix(p.PkgPath, modPath+"/") {
 			continue
 		}
